@@ -51,7 +51,7 @@ def hwmon(ctx, nchip, nsens, coretemp):
         for s in range(1, nsens + 1):
             symb = sym_chip and s == 1
             base = f"{root}/temp{s}"
-            inp = ctx.choice("input", ["ok", "missing", "garbage", "eio"]) if symb else "ok"
+            inp = ctx.choice("input", ["ok", "missing", "garbage", "eio", "eio-on-read"]) if symb else "ok"
             cur = ctx.int(f"cur{c}_{s}", 0, 200000) if symb else 40000 + 1000 * s + c
             if inp == "ok":
                 k.files[base + "_input"] = k.num(cur) + b"\n"
@@ -59,9 +59,11 @@ def hwmon(ctx, nchip, nsens, coretemp):
                 k.files[base + "_input"] = b"N/A\n"
             elif inp == "eio":
                 k.files[base + "_input"] = simk.oserr(5, base + "_input")
+            elif inp == "eio-on-read":          # the attribute exists, reading it fails (ENODATA: what a sensor without data answers)
+                k.files[base + "_input"] = simk.fails_on_read(k, base + "_input", 61)
             thr = {}
             for what in ("max", "crit"):
-                st = ctx.choice(f"{what}_state", ["present", "absent", "garbage"]) if symb else ("present" if (s + c) % 2 else "absent")
+                st = ctx.choice(f"{what}_state", ["present", "absent", "garbage", "unreadable"]) if symb else ("present" if (s + c) % 2 else "absent")
                 v = ctx.int(f"{what}{c}_{s}", 0, 200000) if symb else 80000 + s
                 if st == "present":
                     k.files[f"{base}_{what}"] = k.num(v) + b"\n"
@@ -69,11 +71,16 @@ def hwmon(ctx, nchip, nsens, coretemp):
                 elif st == "garbage":
                     k.files[f"{base}_{what}"] = b"\n"
                     thr[what] = None
+                elif st == "unreadable":
+                    k.files[f"{base}_{what}"] = simk.fails_on_read(k, f"{base}_{what}", 61)
+                    thr[what] = None
                 else:
                     thr[what] = None
             has_label = ctx.flag("has_label") if symb else (s % 2 == 0)
             if has_label:
                 k.files[base + "_label"] = f"Core {s}\n"
+            elif symb and ctx.flag("label_unreadable"):
+                k.files[base + "_label"] = simk.fails_on_read(k, base + "_label", 61)
             if coretemp and c == 0 and not nested:
                 # the same sensor is also reachable through the platform device: it must not be reported twice
                 for n_ in [n for n in k.files if n.startswith(base + "_")]:
@@ -152,12 +159,16 @@ def fans(ctx, nested):
     k.files[root + "/name"] = "dell_smm\n"
     rpm = [ctx.int(f"rpm{i}", 0, 10**6) for i in (1, 2)]
     k.files[root + "/fan1_input"] = k.num(rpm[0]) + b"\n"
-    k.files[root + "/fan1_label"] = "cpu fan\n"
-    state2 = ctx.choice("fan2", ["ok", "unreadable", "absent"])
+    lab1 = ctx.choice("fan1_label", ["ok", "unreadable"])
+    k.files[root + "/fan1_label"] = "cpu fan\n" if lab1 == "ok" else simk.fails_on_read(k, root + "/fan1_label", 61)
+    state2 = ctx.choice("fan2", ["ok", "unreadable", "unreadable-on-read", "absent"])
     if state2 == "ok":
         k.files[root + "/fan2_input"] = k.num(rpm[1]) + b"\n"
     elif state2 == "unreadable":
         k.files[root + "/fan2_input"] = simk.oserr(5, root + "/fan2_input")
+        k.files[root + "/fan2_label"] = "gpu\n"
+    elif state2 == "unreadable-on-read":
+        k.files[root + "/fan2_input"] = simk.fails_on_read(k, root + "/fan2_input", 5)
         k.files[root + "/fan2_label"] = "gpu\n"
     none_at_all = ctx.flag("no_fans")
     if none_at_all:
@@ -170,7 +181,7 @@ def fans(ctx, nested):
     if none_at_all:
         ctx.prove(r == {}, "fans-empty")
         return
-    want = [("cpu fan", rpm[0])] + ([("", rpm[1])] if state2 == "ok" else [])
+    want = [("cpu fan" if lab1 == "ok" else "", rpm[0])] + ([("", rpm[1])] if state2 == "ok" else [])
     ctx.prove(list(r) == ["dell_smm"] and len(r["dell_smm"]) == len(want) and ctx.all([g.label == l and ctx.eq(g.current, v) for g, (l, v) in zip(r["dell_smm"], want)]), "fans")
 
 
@@ -186,6 +197,9 @@ def battery(ctx, full_pin, power_pin):
     use_charge = ctx.flag("charge_names")            # energy_* vs charge_* file names
     now = ctx.int("now", 0, 10**8)
     k.files[root + ("/charge_now" if use_charge else "/energy_now")] = k.num(now) + b"\n"
+    if use_charge and ctx.flag("energy_now_exists_but_unreadable"):
+        # a fuel gauge that exposes energy_now without being able to answer it (ENODEV): the charge_* file is the source
+        k.files[root + "/energy_now"] = simk.fails_on_read(k, root + "/energy_now", 19)
     k.files[root + ("/charge_full" if use_charge else "/energy_full")] = k.num(full_pin) + b"\n"
     k.files[root + ("/current_now" if use_charge else "/power_now")] = k.num(power_pin) + b"\n"
     online = ctx.choice("online", [None, 0, 1])
@@ -302,10 +316,15 @@ def cpu_freq_sysfs(ctx, ncpu, layout):
         if src in ("scaling_cur_freq", "cpuinfo_cur_freq") and not (offline and i == 0):
             k.files[f"{d}/{src}"] = k.num(cur[i]) + b"\n"
         k.files[f"{base}/cpu{i}/online"] = "0\n" if (offline and i == 0) else "1\n"
+    nrec = ncpu
     if src == "proc_cpuinfo":
         k.files["/proc/cpuinfo"] = "".join(f"processor\t: {i}\ncpu MHz\t\t: {k.num(cur[i], True, suffix='.000')}\n\n" for i in range(ncpu))
     else:
-        k.files["/proc/cpuinfo"] = "processor\t: 0\nmodel name\t: x\n\n"
+        # /proc/cpuinfo may carry "cpu MHz" records for fewer CPUs than there are frequency policies (an offline CPU has no record; a
+        # policy may be shared): they are a substitute for the sysfs readings only when there is exactly one per policy
+        nrec = ctx.choice("cpuinfo_mhz_records", list(range(0, ncpu + (0 if offline else 1))))
+        cm = [ctx.int(f"cpuinfo_mhz{i}", 0, 10**5) for i in range(nrec)]
+        k.files["/proc/cpuinfo"] = "".join(f"processor\t: {i + (1 if offline else 0)}\ncpu MHz\t\t: {k.num(cm[i], True, suffix='.000')}\n\n" for i in range(nrec)) or "processor\t: 0\nmodel name\t: x\n\n"
     with k.installed(pkg=pkg):
         per = ctx.guard("cpu_freq-sysfs", pkg.cpu_freq, percpu=True)
         avg = ctx.guard("cpu_freq-sysfs", pkg.cpu_freq)
@@ -315,7 +334,8 @@ def cpu_freq_sysfs(ctx, ncpu, layout):
         if offline and i == 0:
             want.append((0, 0, 0))
         else:
-            c = cur[i] if src == "proc_cpuinfo" else ctx.div(cur[i], 1000)       # /proc/cpuinfo is already in MHz
+            # /proc/cpuinfo is already in MHz
+            c = cur[i] if src == "proc_cpuinfo" else cm[i] if nrec == ncpu else ctx.div(cur[i], 1000)
             want.append((c, ctx.div(mn[i], 1000), ctx.div(mx[i], 1000)))
     ok = [len(per) == ncpu] + [ctx.all([ctx.eq(g.current, w[0]), ctx.eq(g.min, w[1]), ctx.eq(g.max, w[2])]) for g, w in zip(per, want)]
     ctx.prove(ctx.all(ok), "cpu_freq-sysfs", detail=f"layout={layout} current from {src} offline0={offline}")
